@@ -27,6 +27,17 @@ func fail(format string, a ...interface{}) {
 	os.Exit(1)
 }
 
+// missing records a construct the extractor no longer finds. The fact is then emitted with an empty /
+// zero value, so that only the tie theorems (and with them the properties) that rest on it stop
+// checking; the note goes to stderr and into Generated.lean.
+var missingNotes []string
+
+func missing(format string, a ...interface{}) {
+	m := fmt.Sprintf(format, a...)
+	fmt.Fprintf(os.Stderr, "facts: not found: %s\n", m)
+	missingNotes = append(missingNotes, m)
+}
+
 func load(repo string) *pkgInfo {
 	p := &pkgInfo{fset: token.NewFileSet(), files: map[string]*ast.File{}}
 	names, _ := filepath.Glob(filepath.Join(repo, "*.go"))
@@ -305,45 +316,52 @@ func main() {
 	// --- SessionState members, Step table ---
 	ss := p.typedStringConsts("SessionState")
 	stepFn := p.method("SessionState", "Step")
+	var cases [][]string
+	var rets []string
 	if stepFn == nil || len(ss) == 0 {
-		fail("SessionState constants or Step() not found")
+		missing("SessionState constants or Step()")
+	} else {
+		cases, rets = switchCases(stepFn)
 	}
-	cases, rets := switchCases(stepFn)
 	b.WriteString("/-- `SessionState.Step`: text form ↦ step number, in source order. -/\n")
 	items := []string{}
 	for i, ids := range cases {
 		for _, id := range ids {
 			v, ok := ss[id]
 			if !ok {
-				fail("Step(): unknown case %s", id)
+				missing("Step(): unknown case %s", id)
+				continue
 			}
 			items = append(items, fmt.Sprintf("(%s, %s)", leanStr(v), rets[i]))
 		}
 	}
 	if len(items) == 0 {
-		fail("Step(): no cases")
+		missing("Step(): no cases")
 	}
 	b.WriteString("def sessionStateStep : List (String × Int) := [" + strings.Join(items, ", ") + "]\n\n")
 
 	emitValidate := func(typ, leanName, doc string) {
 		consts := p.typedStringConsts(typ)
 		fn := p.method(typ, "Validate")
+		var cs [][]string
 		if fn == nil {
-			fail("%s.Validate not found", typ)
+			missing("%s.Validate", typ)
+		} else {
+			cs, _ = switchCases(fn)
 		}
-		cs, _ := switchCases(fn)
 		vals := []string{}
 		for _, ids := range cs {
 			for _, id := range ids {
 				v, ok := consts[id]
 				if !ok {
-					fail("%s.Validate: unknown member %s", typ, id)
+					missing("%s.Validate: unknown member %s", typ, id)
+					continue
 				}
 				vals = append(vals, v)
 			}
 		}
 		if len(vals) == 0 {
-			fail("%s.Validate: no members", typ)
+			missing("%s.Validate: no members", typ)
 		}
 		b.WriteString("/-- " + doc + " -/\n")
 		b.WriteString("def " + leanName + " : List String := " + leanStrList(vals) + "\n\n")
@@ -361,7 +379,7 @@ func main() {
 		}
 		sort.Strings(vals)
 		if len(vals) == 0 {
-			fail("no constants of type %s", typ)
+			missing("constants of type %s", typ)
 		}
 		b.WriteString("def " + leanName + " : List String := " + leanStrList(vals) + "\n\n")
 	}
@@ -374,7 +392,7 @@ func main() {
 	emitFields := func(typ, leanName string) {
 		fs := p.structFields(typ)
 		if len(fs) == 0 {
-			fail("struct %s not found", typ)
+			missing("struct %s", typ)
 		}
 		rows := []string{}
 		for _, f := range fs {
@@ -392,13 +410,12 @@ func main() {
 	emitFields("ExternalAuthentication", "externalAuthFields")
 
 	// --- envelope kind discrimination ---
-	et := p.method("rawEnvelope", "envelopeType")
-	if et == nil {
-		fail("rawEnvelope.envelopeType not found")
+	var order [][2]string
+	if et := p.method("rawEnvelope", "envelopeType"); et != nil {
+		order = envelopeTypeOrder(et)
 	}
-	order := envelopeTypeOrder(et)
 	if len(order) == 0 {
-		fail("envelopeType: no decisions found")
+		missing("rawEnvelope.envelopeType: no decisions found")
 	}
 	rows := []string{}
 	for _, o := range order {
@@ -411,11 +428,13 @@ func main() {
 	sep := func(fn string, n int) []string {
 		fd := p.method("", fn)
 		if fd == nil {
-			fail("%s not found", fn)
+			missing("%s", fn)
+			return nil
 		}
 		s := splitSeps(fd)
 		if len(s) != n {
-			fail("%s: expected %d strings.Split calls, found %d", fn, n, len(s))
+			missing("%s: expected %d strings.Split calls, found %d", fn, n, len(s))
+			return nil
 		}
 		return s
 	}
@@ -450,26 +469,27 @@ func main() {
 		}
 	}
 	if !found {
-		fail("DefaultReadLimit not found")
+		missing("DefaultReadLimit")
+		b.WriteString("def defaultReadLimit : Nat := 0\n")
 	}
-	sc := p.method("tcpTransport", "setConn")
-	if sc == nil {
-		fail("tcpTransport.setConn not found")
+	var ds []string
+	if sc := p.method("tcpTransport", "setConn"); sc != nil {
+		ds = durationsIn(sc)
 	}
-	ds := durationsIn(sc)
 	if len(ds) != 2 {
-		fail("setConn: expected the two NewCtxConn timeouts, found %v", ds)
+		missing("setConn: expected the two NewCtxConn timeouts, found %v", ds)
+		ds = []string{"0", "0"}
 	}
 	b.WriteString("/-- the read and write poll intervals handed to `NewCtxConn` in `setConn`, in seconds -/\n")
 	b.WriteString("def readPollSeconds : Nat := " + ds[0] + "\n")
 	b.WriteString("def writePollSeconds : Nat := " + ds[1] + "\n")
-	se := p.method("tcpTransport", "SetEncryption")
-	if se == nil {
-		fail("tcpTransport.SetEncryption not found")
+	ds = nil
+	if se := p.method("tcpTransport", "SetEncryption"); se != nil {
+		ds = durationsIn(se)
 	}
-	ds = durationsIn(se)
 	if len(ds) != 1 {
-		fail("SetEncryption: expected one default deadline, found %v", ds)
+		missing("SetEncryption: expected one default deadline, found %v", ds)
+		ds = []string{"0"}
 	}
 	b.WriteString("def tlsUpgradeDefaultDeadlineSeconds : Nat := " + ds[0] + "\n\n")
 
@@ -495,6 +515,9 @@ func main() {
 	b.WriteString("def finishDrainsTerminalState : Bool := " + leanBool(finishDrainsTerminalState(need("channel", "receiveSession"))) + "\n")
 	b.WriteString("def serveReturnsClosedAfterClose : Bool := " + leanBool(serveReturnsClosedAfterClose(need("Server", "ListenAndServe"))) + "\n\n")
 
+	for _, m := range missingNotes {
+		b.WriteString("-- not found in the source on this run: " + strings.ReplaceAll(m, "\n", " ") + "\n")
+	}
 	b.WriteString("end LimeModel.Generated\n")
 	if *outp == "" {
 		fmt.Print(b.String())
